@@ -155,6 +155,7 @@ func checkC10(c *Ctx) {
 	c.Rule("R4", "null != empty by construction on both sides")
 	c.Rule("R5", "length limits tested before the allocation / read they protect")
 	c.Rule("R6", "buffer-full branch only when the whole buffer is one unterminated line")
+	c.Rule("R7", "integer text: the encoder's decimal text comes from strconv / the itoa table, or from digit arithmetic that never negates a signed value")
 
 	pk := p.TPkg(redisPkg)
 	// ---------------- R1
@@ -428,6 +429,7 @@ func checkC10(c *Ctx) {
 	c.Expect("R3", 7)
 	c.Expect("R4", 7)
 	c.Expect("R5", 2)
+	checkEncoderIntegerText(c, "R7")
 
 	// ---------------- R6: ReadSlice's buffer-full branch
 	if readSlice != nil {
@@ -533,4 +535,101 @@ func checkReadBufferAlias(c *Ctx, rule string) {
 		c.Check(!usesRS, rule, name+" reads into owned memory", fn.Pos(), "uses the allocating readers (ReadBytes/ReadFull)", "a value-carrying decoder reads with ReadSlice (no copy)")
 	}
 
+}
+
+// checkEncoderIntegerText (C10.R7): the decimal text of integers, bulk lengths and array lengths. Every function of
+// the encoder that turns an integer into text is classified: delegation to strconv / the itoa table is accepted as is;
+// hand-written digit arithmetic is accepted only if it never negates a signed value (the one value whose negation
+// overflows, math.MinInt64, would otherwise be written as ":-" - a reply no decoder accepts) - negation is sound
+// only when the result is converted to an unsigned type at once.
+func checkEncoderIntegerText(c *Ctx, rule string) {
+	p := c.P
+	enc := p.Func(redisPkg, "(*encoder).Encode")
+	if enc == nil {
+		c.Unresolved(rule, "(*encoder).Encode")
+		return
+	}
+	cone := p.reachable([]*ssa.Function{enc}, func(g *ssa.Function) bool {
+		return g.Pkg == nil || g.Pkg.Pkg.Path() != modPath+"/"+redisPkg
+	})
+	var fns []*ssa.Function
+	for f := range cone {
+		if f.Pkg != nil && f.Pkg.Pkg.Path() == modPath+"/"+redisPkg {
+			fns = append(fns, f)
+		}
+	}
+	sort.Slice(fns, func(i, j int) bool { return fnKey(fns[i]) < fnKey(fns[j]) })
+	n := 0
+	for _, fn := range fns {
+		// integer -> text: has an integer parameter/operand and either calls strconv or does digit arithmetic
+		usesStrconv, digitArith := false, false
+		var neg ssa.Instruction
+		eachInstr(fn, func(_ *ssa.BasicBlock, _ int, in ssa.Instruction) {
+			if cc := callOf(in); cc != nil {
+				if g := calleeFn(cc); g != nil && g.Pkg != nil && g.Pkg.Pkg.Path() == "strconv" {
+					usesStrconv = true
+				}
+			}
+			isSigned := func(t types.Type) bool {
+				b, ok := t.Underlying().(*types.Basic)
+				return ok && b.Info()&types.IsInteger != 0 && b.Info()&types.IsUnsigned == 0
+			}
+			var negated ssa.Value
+			switch x := in.(type) {
+			case *ssa.UnOp:
+				if x.Op == token.SUB && isSigned(x.Type()) {
+					negated = x
+				}
+			case *ssa.BinOp:
+				if x.Op == token.SUB && isSigned(x.Type()) {
+					if k, isC := constInt(x.X); isC && k == 0 {
+						negated = x
+					}
+				}
+				if (x.Op == token.REM || x.Op == token.QUO) && isSigned(x.Type()) {
+					if k, isC := constInt(x.Y); isC && k == 10 {
+						digitArith = true
+					}
+				}
+			}
+			if negated != nil {
+				if u, isU := negated.(*ssa.UnOp); isU {
+					if _, isC := u.X.(*ssa.Const); isC {
+						return
+					}
+				}
+				onlyUnsigned := true
+				for _, r := range *negated.Referrers() {
+					cv, ok := r.(*ssa.Convert)
+					if !ok {
+						if _, isDbg := r.(*ssa.DebugRef); isDbg {
+							continue
+						}
+						onlyUnsigned = false
+						continue
+					}
+					if b, ok := cv.Type().Underlying().(*types.Basic); !ok || b.Info()&types.IsUnsigned == 0 {
+						onlyUnsigned = false
+					}
+				}
+				if !onlyUnsigned {
+					neg = in
+				}
+			}
+		})
+		if !usesStrconv && !digitArith && neg == nil {
+			continue
+		}
+		n++
+		site := "integer text in " + fnKey(fn)
+		switch {
+		case neg != nil:
+			c.Fail(rule, site, neg.Pos(), "a signed integer is negated while it is formatted: for math.MinInt64 the negation overflows back to itself, the digit loop then produces no digits and the value is written as \":-\" - encode and decode are no longer inverse for that value")
+		case digitArith:
+			c.OK(rule, site, fn.Pos(), "hand-written digits without signed negation")
+		default:
+			c.OK(rule, site, fn.Pos(), "delegated to strconv")
+		}
+	}
+	c.Expect(rule, 1)
 }
